@@ -53,6 +53,8 @@ type brHarness struct {
 	taxCfg       map[int][3]string
 	taxRate      map[int][2]int64 // token -> (num, den) of the configured rate
 	taxEx        map[int]int      // token -> exempt user (0 = none)
+	lastTax      map[int][3]string // token -> (rate string as submitted, n, d) of the setting in force
+	lastLimit    map[int][2]string // token -> (period index, limit) of the setting in force
 	limits       map[int][2]int64 // period, start of current window (tracked by harness only for generation)
 	fundedSupply map[int]*big.Int
 	minted       map[int]*big.Int
@@ -383,7 +385,7 @@ func TestBridge(t *testing.T) {
 func runBridgeCase(t *testing.T, r *Rec, prop string, nops int) {
 	e := newSkyEnv(t, 3)
 	b := &brHarness{r: r, e: e, nTok: 2, accepted: map[int]obsTx{}, refunded: map[int]bool{}, burned: map[int]bool{},
-		taxRate: map[int][2]int64{}, taxEx: map[int]int{}, ckptSeen: map[string]bool{}, deposits: map[uint64][2]int64{}, pendEst: map[[2]int]uint64{}, fundedSupply: map[int]*big.Int{}, minted: map[int]*big.Int{}, burnt: map[int]*big.Int{}}
+		taxRate: map[int][2]int64{}, taxEx: map[int]int{}, lastTax: map[int][3]string{}, lastLimit: map[int][2]string{}, ckptSeen: map[string]bool{}, deposits: map[uint64][2]int64{}, pendEst: map[[2]int]uint64{}, fundedSupply: map[int]*big.Int{}, minted: map[int]*big.Int{}, burnt: map[int]*big.Int{}}
 	b.initKeys()
 	e.addToken("utok1", "0x1000000000000000000000000000000000000001")
 	e.addToken("utok2", "0x1000000000000000000000000000000000000002")
@@ -481,10 +483,20 @@ func runBridgeCase(t *testing.T, r *Rec, prop string, nops int) {
 			for i, a := range ex {
 				exStr[i] = a.String()
 			}
-			err := e.gov(e.ctx, &skytypes.SetBridgeTaxProposal{Title: "t", Description: "d", Token: e.denoms[tk-1], Rate: rateString(r, n, d), ExemptAddresses: exStr})
+			rate := rateString(r, n, d)
+			// a setting submitted again with ONE component changed: the same rate (spelt exactly as before) with another
+			// exemption list - a handler that compares a setting with the one in force must compare all of it
+			if lt, ok := b.lastTax[tk]; ok && r.Rng.Intn(3) == 0 {
+				rate = lt[0]
+				fmt.Sscan(lt[1], &n)
+				fmt.Sscan(lt[2], &d)
+				r.Stat("settax.same_rate_other_exemptions")
+			}
+			err := e.gov(e.ctx, &skytypes.SetBridgeTaxProposal{Title: "t", Description: "d", Token: e.denoms[tk-1], Rate: rate, ExemptAddresses: exStr})
 			if err != nil {
 				t.Fatalf("settax: %v", err)
 			}
+			b.lastTax[tk] = [3]string{rate, fmt.Sprint(n), fmt.Sprint(d)}
 			b.taxRate[tk] = [2]int64{n, d}
 			b.taxEx[tk] = 0
 			if exs != "-" {
@@ -509,9 +521,22 @@ func runBridgeCase(t *testing.T, r *Rec, prop string, nops int) {
 				exStr = append(exStr, e.users[u-1].String())
 				exs = fmt.Sprint(u)
 			}
+			// the same limit and period as the setting in force, with another exemption list (see settax)
+			if ll, ok := b.lastLimit[tk]; ok && r.Rng.Intn(3) == 0 {
+				var pi int
+				fmt.Sscan(ll[0], &pi)
+				p = brPeriods[pi]
+				lim, _ = sdkmath.NewIntFromString(ll[1])
+				r.Stat("setlimit.same_limit_other_exemptions")
+			}
 			err := e.gov(e.ctx, &skytypes.SetBridgeTransferLimitProposal{Title: "t", Description: "d", Token: e.denoms[tk-1], Limit: lim, LimitPeriod: p.p, ExemptAddresses: exStr})
 			if err != nil {
 				t.Fatalf("setlimit: %v", err)
+			}
+			for pi := range brPeriods {
+				if brPeriods[pi].p == p.p {
+					b.lastLimit[tk] = [2]string{fmt.Sprint(pi), lim.String()}
+				}
 			}
 			b.emit(fmt.Sprintf("setlimit %d %d %s %s", tk, p.blocks, lim, exs), b.state())
 			r.Stat("op.setlimit")
